@@ -14,6 +14,7 @@ package interpreter
 //@   ensures [appended-last] {C02,C04} val(monetary) != 0 ==> st.Senders[old(len(st.Senders))].Name == name && st.Senders[old(len(st.Senders))].Monetary == monetary
 //@   ensures [prefix-kept] {C02,C04} val(monetary) != 0 ==> forall(j, 0, old(len(st.Senders)), st.Senders[j] == old(st.Senders[j]))
 //@   ensures [amounts-untouched] {C02,C11} heapsame(bigint)
+//@   ensures [queue-owned] {C11} sendersOwned(st)
 //@   modifies st.Senders
 
 //@ func (*programState).pushReceiver
@@ -23,6 +24,7 @@ package interpreter
 //@   ensures [appended-last] {C02,C05} val(monetary) != 0 ==> st.Receivers[old(len(st.Receivers))].Name == name && st.Receivers[old(len(st.Receivers))].Monetary == monetary
 //@   ensures [prefix-kept] {C02,C05} val(monetary) != 0 ==> forall(j, 0, old(len(st.Receivers)), st.Receivers[j] == old(st.Receivers[j]))
 //@   ensures [amounts-untouched] {C02,C11} heapsame(bigint)
+//@   ensures [queue-owned] {C11} receiversOwned(st)
 //@   modifies st.Receivers
 
 // ---------------------------------------------------------------- expressions
@@ -65,7 +67,7 @@ package interpreter
 // amount already queued from account a by the statement being executed
 //@ spec pulled(st, a) = sumMonBy(st.Senders, len(st.Senders), a)
 // the cache only grows: known cells keep their identity, new cells are freshly allocated
-//@ spec cacheGrew(st) = forallstr(a, c, (old(known(st, a, c)) ==> known(st, a, c) && st.CachedBalances[a][c] == old(st.CachedBalances[a][c])) && (known(st, a, c) && !old(known(st, a, c)) ==> fresh(ref(st.CachedBalances[a][c]))))
+//@ spec cacheGrew(st) = innerGrew(st) && forallstr(a, c, (old(known(st, a, c)) ==> known(st, a, c) && st.CachedBalances[a][c] == old(st.CachedBalances[a][c])) && (known(st, a, c) && !old(known(st, a, c)) ==> fresh(ref(st.CachedBalances[a][c]))))
 // the per-account maps of the cache are the ones it had on entry or were allocated since
 //@ spec innerGrew(st) = forallstr(a, has(st.CachedBalances, a) ==> (old(has(st.CachedBalances, a)) && st.CachedBalances[a] == old(st.CachedBalances[a])) || fresh(ref(st.CachedBalances[a])))
 //@ spec cacheOwned(st) = ref(st.CachedBalances) > ref(st) && forallstr(a, has(st.CachedBalances, a) ==> ref(st.CachedBalances[a]) > ref(st)) && forallstr(a, c, known(st, a, c) ==> ref(st.CachedBalances[a][c]) > ref(st))
@@ -78,6 +80,7 @@ package interpreter
 //@   ensures [default-fresh] {C11} !old(known(s, account, asset)) ==> fresh(ref(result))
 //@   ensures [view-unchanged] {C01,C09,C10} forallstr(a, forallstr(c, bal(s, a, c) == old(bal(s, a, c))))
 //@   ensures [cache-grew] {C10,C11} cacheGrew(s)
+//@   ensures [cache-owned] {C11} old(cacheOwned(s)) ==> cacheOwned(s)
 //@   ensures [known-grows] {C10} forallstr(a, forallstr(c, old(known(s, a, c)) ==> known(s, a, c)))
 //@   ensures [known-only] {C10} forallstr(a, c, known(s, a, c) && !old(known(s, a, c)) ==> a == account && c == asset)
 //@   ensures [cache-ok] cacheOk(s)
@@ -125,8 +128,10 @@ package interpreter
 
 //@   ensures [view-unchanged] {C01,C09} forallstr(a, forallstr(c, bal(s, a, c) == old(bal(s, a, c))))
 //@   ensures [cache-grew] {C10,C11} cacheGrew(s)
+//@   ensures [cache-owned] {C11} old(cacheOwned(s)) ==> cacheOwned(s)
 //@   ensures [state-ok] stateOk(s)
 //@   ensures [amounts-untouched] {C11} heapsame(bigint)
+//@   ensures [queue-owned] {C11} sendersOwned(s)
 //@   modifies s.Senders, entries(s.CachedBalances), innermapsof(s)
 
 // The account leaf of a send-all draw: everything the account may still give,
@@ -150,14 +155,19 @@ package interpreter
 
 //@   ensures [view-unchanged] {C01,C09} forallstr(a, forallstr(c, bal(s, a, c) == old(bal(s, a, c))))
 //@   ensures [cache-grew] {C10,C11} cacheGrew(s)
+//@   ensures [cache-owned] {C11} old(cacheOwned(s)) ==> cacheOwned(s)
 //@   ensures [state-ok] stateOk(s)
 //@   ensures [amounts-untouched] {C11} heapsame(bigint)
+//@   ensures [queue-owned] {C11} sendersOwned(s)
 //@   modifies s.Senders, entries(s.CachedBalances), innermapsof(s)
 
 // ---------------------------------------------------------------- sources: trees
 
 // what every draw function guarantees about the sender queue (append-only, positive, owned amounts)
 //@ spec sendersGrew(s, L0) = len(s.Senders) >= L0
+// the backing array of a queue is the one it had on entry or a newly allocated one (append copies)
+//@ spec sendersOwned(s) = arr(s.Senders) == old(arr(s.Senders)) || fresh(arr(s.Senders))
+//@ spec receiversOwned(s) = arr(s.Receivers) == old(arr(s.Receivers)) || fresh(arr(s.Receivers))
 //@ spec newSendersOk(s, L0) = forall(j, L0, len(s.Senders), s.Senders[j].Monetary != nil && val(s.Senders[j].Monetary) > 0 && fresh(ref(s.Senders[j].Monetary)))
 
 // Splits `monetary` by the portions of `items`: floor shares, then one unit each to the
@@ -191,6 +201,8 @@ package interpreter
 //@     invariant [bracket-hi] {C06} sumRatsTimes(allotments, iter, val(monetary)) <= real(val(totalAllocated)) + real(iter) && (iter > 0 ==> sumRatsTimes(allotments, iter, val(monetary)) < real(val(totalAllocated)) + real(iter))
 //@   loop 3
 //@     invariant [portions] {C06} len(parts) == len(allotments) && sumRats(allotments, len(allotments)) == 1
+//@     invariant [total-product] {C06} len(allotments) > 0 && sumRatsTimes(allotments, len(allotments), val(monetary)) == real(val(monetary))
+//@     invariant [floor-total] {C06} atloop(real(val(totalAllocated)) <= sumRatsTimes(allotments, len(allotments), val(monetary)) && sumRatsTimes(allotments, len(allotments), val(monetary)) < real(val(totalAllocated)) + real(len(allotments)))
 //@     invariant [parts] forall(j, 0, len(parts), parts[j] != nil && fresh(ref(parts[j])) && parts[j] != totalAllocated)
 //@     invariant [distinct] forall(j, 0, len(parts), forall(k, 0, len(parts), j != k ==> parts[j] != parts[k]))
 //@     invariant [sum3] {C06} totalAllocated != nil && fresh(ref(totalAllocated)) && val(totalAllocated) == sumVals(parts, len(parts))
@@ -205,8 +217,10 @@ package interpreter
 //@   ensures [new-senders] {C02,C05} err == nil ==> newSendersOk(s, old(len(s.Senders)))
 //@   ensures [view-unchanged] {C01,C09} forallstr(a, forallstr(c, bal(s, a, c) == old(bal(s, a, c))))
 //@   ensures [cache-grew] {C10,C11} cacheGrew(s)
+//@   ensures [cache-owned] {C11} old(cacheOwned(s)) ==> cacheOwned(s)
 //@   ensures [state-ok] stateOk(s)
 //@   ensures [amounts-untouched] {C11} heapsame(bigint)
+//@   ensures [queue-owned] {C11} sendersOwned(s)
 //@   modifies s.Senders, entries(s.CachedBalances), innermapsof(s)
 
 // Tries sending "amount" and returns what was actually sent (fresh, or the argument itself in the allotment case)
@@ -220,15 +234,19 @@ package interpreter
 //@   ensures [new-senders] {C02,C05} err == nil ==> newSendersOk(s, old(len(s.Senders)))
 //@   ensures [view-unchanged] {C01,C09} forallstr(a, forallstr(c, bal(s, a, c) == old(bal(s, a, c))))
 //@   ensures [cache-grew] {C10,C11} cacheGrew(s)
+//@   ensures [cache-owned] {C11} old(cacheOwned(s)) ==> cacheOwned(s)
 //@   ensures [state-ok] stateOk(s)
 //@   ensures [amounts-untouched] {C11} heapsame(bigint)
+//@   ensures [queue-owned] {C11} sendersOwned(s)
 //@   modifies s.Senders, entries(s.CachedBalances), innermapsof(s)
 //@   loop 1
 //@     invariant [left] {C03,C04} val(totalLeft) + sumMon(s.Senders, len(s.Senders)) == val(amount) + old(sumMon(s.Senders, len(s.Senders)))
 //@     invariant [left-range] {C04} totalLeft != nil && fresh(ref(totalLeft)) && 0 <= val(totalLeft) && val(totalLeft) <= val(amount)
 //@     invariant [noalias] forall(j, 0, len(s.Senders), s.Senders[j].Monetary != totalLeft) && notCell(s, totalLeft)
 //@     invariant [cache-grew] cacheGrew(s)
+//@     invariant [cache-owned] old(cacheOwned(s)) ==> cacheOwned(s)
 //@     invariant [prefix] len(s.Senders) >= old(len(s.Senders)) && forall(j, 0, old(len(s.Senders)), s.Senders[j] == old(s.Senders[j]))
+//@     invariant [queue-owned] sendersOwned(s)
 //@     invariant [new-senders] newSendersOk(s, old(len(s.Senders)))
 //@     invariant [view] forallstr(a, forallstr(c, bal(s, a, c) == old(bal(s, a, c))))
 //@     invariant [state] stateOk(s)
@@ -238,9 +256,11 @@ package interpreter
 //@     invariant [sent] {C03} sumMon(s.Senders, len(s.Senders)) == old(sumMon(s.Senders, len(s.Senders))) + sumVals(allot, iter)
 //@     invariant [allot] len(allot) == len(as(source, *parser.SourceAllotment).Items) && sumVals(allot, len(allot)) == val(amount) && forall(j, 0, len(allot), allot[j] != nil && val(allot[j]) >= 0)
 //@     invariant [prefix] len(s.Senders) >= old(len(s.Senders)) && forall(j, 0, old(len(s.Senders)), s.Senders[j] == old(s.Senders[j]))
+//@     invariant [queue-owned] sendersOwned(s)
 //@     invariant [new-senders] newSendersOk(s, old(len(s.Senders)))
 //@     invariant [view] forallstr(a, forallstr(c, bal(s, a, c) == old(bal(s, a, c))))
 //@     invariant [cache-grew] cacheGrew(s)
+//@     invariant [cache-owned] old(cacheOwned(s)) ==> cacheOwned(s)
 //@     invariant [state] stateOk(s)
 
 // Send as much as possible: every listed account is drained (subject to caps); unbounded
@@ -256,16 +276,20 @@ package interpreter
 //@   ensures [new-senders] {C02,C05} err == nil ==> newSendersOk(s, old(len(s.Senders)))
 //@   ensures [view-unchanged] {C01,C09} forallstr(a, forallstr(c, bal(s, a, c) == old(bal(s, a, c))))
 //@   ensures [cache-grew] {C10,C11} cacheGrew(s)
+//@   ensures [cache-owned] {C11} old(cacheOwned(s)) ==> cacheOwned(s)
 //@   ensures [state-ok] stateOk(s)
 //@   ensures [amounts-untouched] {C11} heapsame(bigint)
+//@   ensures [queue-owned] {C11} sendersOwned(s)
 //@   modifies s.Senders, entries(s.CachedBalances), innermapsof(s)
 //@   loop 1
 //@     invariant [sent] {C03,C04} totalSent != nil && fresh(ref(totalSent)) && val(totalSent) >= 0 && sumMon(s.Senders, len(s.Senders)) == old(sumMon(s.Senders, len(s.Senders))) + val(totalSent)
 //@     invariant [noalias] forall(j, 0, len(s.Senders), s.Senders[j].Monetary != totalSent) && notCell(s, totalSent)
 //@     invariant [prefix] len(s.Senders) >= old(len(s.Senders)) && forall(j, 0, old(len(s.Senders)), s.Senders[j] == old(s.Senders[j]))
+//@     invariant [queue-owned] sendersOwned(s)
 //@     invariant [new-senders] newSendersOk(s, old(len(s.Senders)))
 //@     invariant [view] forallstr(a, forallstr(c, bal(s, a, c) == old(bal(s, a, c))))
 //@     invariant [cache-grew] cacheGrew(s)
+//@     invariant [cache-owned] old(cacheOwned(s)) ==> cacheOwned(s)
 //@     invariant [state] stateOk(s)
 
 // ---------------------------------------------------------------- destinations
@@ -283,6 +307,7 @@ package interpreter
 //@   ensures [view-unchanged] {C09} forallstr(a, c, bal(s, a, c) == old(bal(s, a, c)))
 //@   ensures [state-ok] varsOk(s) && receiversOk(s)
 //@   ensures [amounts-untouched] {C05,C11} heapsame(bigint)
+//@   ensures [queue-owned] {C11} receiversOwned(s)
 //@   modifies s.Receivers
 
 //@ func (*programState).receiveFrom
@@ -294,6 +319,7 @@ package interpreter
 //@   ensures [view-unchanged] {C09} forallstr(a, c, bal(s, a, c) == old(bal(s, a, c)))
 //@   ensures [state-ok] varsOk(s) && receiversOk(s)
 //@   ensures [amounts-untouched] {C05,C11} heapsame(bigint)
+//@   ensures [queue-owned] {C11} receiversOwned(s)
 //@   modifies s.Receivers
 //@   loop 1
 //@     invariant [items] len(items) == iter && forall(j, 0, iter, items[j] == as(destination, *parser.DestinationAllotment).Items[j].Allotment)
@@ -302,6 +328,7 @@ package interpreter
 //@     invariant [allot] len(allot) == len(as(destination, *parser.DestinationAllotment).Items) && sumVals(allot, len(allot)) == val(amount) && forall(j, 0, len(allot), allot[j] != nil && val(allot[j]) >= 0 && fresh(ref(allot[j])))
 //@     invariant [total] receivedTotal != nil && fresh(ref(receivedTotal)) && forall(j, 0, len(s.Receivers), s.Receivers[j].Monetary != receivedTotal) && forall(j, 0, len(allot), allot[j] != receivedTotal)
 //@     invariant [prefix] len(s.Receivers) >= old(len(s.Receivers)) && forall(j, 0, old(len(s.Receivers)), s.Receivers[j] == old(s.Receivers[j]))
+//@     invariant [queue-owned] receiversOwned(s)
 //@     invariant [new-receivers] forall(j, old(len(s.Receivers)), len(s.Receivers), s.Receivers[j].Monetary != nil && val(s.Receivers[j].Monetary) > 0 && fresh(ref(s.Receivers[j].Monetary)))
 //@     invariant [state] varsOk(s) && receiversOk(s)
 //@   loop 3
@@ -309,6 +336,7 @@ package interpreter
 //@     invariant [left-range] {C05} remainingAmount != nil && fresh(ref(remainingAmount)) && 0 <= val(remainingAmount) && val(remainingAmount) <= val(amount)
 //@     invariant [noalias] {C05} forall(j, 0, len(s.Receivers), s.Receivers[j].Monetary != remainingAmount)
 //@     invariant [prefix] len(s.Receivers) >= old(len(s.Receivers)) && forall(j, 0, old(len(s.Receivers)), s.Receivers[j] == old(s.Receivers[j]))
+//@     invariant [queue-owned] receiversOwned(s)
 //@     invariant [new-receivers] forall(j, old(len(s.Receivers)), len(s.Receivers), s.Receivers[j].Monetary != nil && val(s.Receivers[j].Monetary) > 0 && fresh(ref(s.Receivers[j].Monetary)))
 //@     invariant [state] varsOk(s) && receiversOk(s)
 
@@ -352,6 +380,8 @@ package interpreter
 //@   ensures [other-assets] {C09} forallstr(a, c, c != st.CurrentAsset ==> bal(st, a, c) == old(bal(st, a, c)))
 //@   ensures [cache-ok] cacheOk(st)
 //@   ensures [cache-grew] {C10,C11} cacheGrew(st)
+//@   ensures [cache-owned] {C11} old(cacheOwned(st)) ==> cacheOwned(st)
+//@   ensures [amounts-apart] {C11} forall(k, 0, len(result), notCell(st, result[k].Amount) && allocated(ref(result[k].Amount)))
 //@   modifies cellsof(st), entries(st.CachedBalances), innermapsof(st), elems(st.Senders), elems(st.Receivers)
 //@   loop 1
 //@     invariant [postings-ok] {C02} forall(k, 0, len(postings), postings[k].Amount != nil && val(postings[k].Amount) > 0 && postings[k].Asset == st.CurrentAsset && postings[k].Destination != KEPT_ADDR && allocated(ref(postings[k].Amount)))
@@ -360,6 +390,7 @@ package interpreter
 //@     invariant [other-assets] {C09} forallstr(a, c, c != st.CurrentAsset ==> bal(st, a, c) == old(bal(st, a, c)))
 //@     invariant [cache-ok] cacheOk(st)
 //@     invariant [cache-grew] {C11} cacheGrew(st)
+//@     invariant [cache-owned] old(cacheOwned(st)) ==> cacheOwned(st)
 //@     assert [step-cells] known(st, posting.Source, posting.Asset) && known(st, posting.Destination, posting.Asset) && st.CachedBalances[posting.Source][posting.Asset] == srcBalance && st.CachedBalances[posting.Destination][posting.Asset] == destBalance
 //@     assert [step-known] forallstr(a, c, athead(known(st, a, c)) ==> known(st, a, c) && st.CachedBalances[a][c] == athead(st.CachedBalances[a][c]))
 //@     assert [step-new] forallstr(a, c, known(st, a, c) && !athead(known(st, a, c)) ==> (a == posting.Source || a == posting.Destination) && c == posting.Asset)
@@ -386,11 +417,12 @@ package interpreter
 //@   ensures [error-no-postings] {C12} err != nil ==> len(result) == 0
 //@   ensures [cache-ok] cacheOk(st) && varsOk(st)
 //@   ensures [cache-grew] {C10,C11} cacheGrew(st)
+//@   ensures [cache-owned] {C11} old(cacheOwned(st)) ==> cacheOwned(st)
 //@   modifies cellsof(st), entries(st.CachedBalances), innermapsof(st)
 
 //@ func (*programState).runSendStatement
 //@   requires [wf] wf(statement)
-//@   requires [state] stateOk(st) && receiversOk(st) && len(st.Senders) == 0 && len(st.Receivers) == 0
+//@   requires [state] stateOk(st) && receiversOk(st) && st.Senders == nil && st.Receivers == nil
 //@   let sv = statement.SentValue
 //@   let isAll = typeis(sv, *parser.SentValueAll)
 //@   let mon = as(evalOf(st, as(sv, *parser.SentValueLiteral).Monetary), Monetary)
@@ -404,10 +436,14 @@ package interpreter
 //@   ensures [error-no-postings] {C03,C12} err != nil ==> len(result) == 0
 //@   ensures [state-ok] varsOk(st) && cacheOk(st)
 //@   ensures [cache-grew] {C10,C11} cacheGrew(st)
-//@   modifies st.Senders, st.Receivers, st.CurrentAsset, cellsof(st), entries(st.CachedBalances), innermapsof(st), allelems(Sender), allelems(Receiver)
+//@   ensures [cache-owned] {C11} old(cacheOwned(st)) ==> cacheOwned(st)
+//@   ensures [amounts-apart] {C11} err == nil ==> forall(k, 0, len(result), notCell(st, result[k].Amount) && allocated(ref(result[k].Amount)))
+//@   modifies st.Senders, st.Receivers, st.CurrentAsset, cellsof(st), entries(st.CachedBalances), innermapsof(st)
 
 // transaction / account metadata: later values override earlier ones key by key, other keys stay
 //@ spec metaOk(st) = st != nil && st.TxMeta != nil && st.TxMeta != st.ParsedVars && st.SetAccountsMeta != nil && forallstr(a, has(st.SetAccountsMeta, a) ==> st.SetAccountsMeta[a] != nil) && forallstr(a, b, has(st.SetAccountsMeta, a) && has(st.SetAccountsMeta, b) && a != b ==> st.SetAccountsMeta[a] != st.SetAccountsMeta[b])
+
+//@ spec metaGrew(st) = forallstr(a, has(st.SetAccountsMeta, a) ==> (old(has(st.SetAccountsMeta, a)) && st.SetAccountsMeta[a] == old(st.SetAccountsMeta[a])) || fresh(ref(st.SetAccountsMeta[a])))
 
 //@ func setTxMeta
 //@   requires [state] metaOk(st)
@@ -425,7 +461,8 @@ package interpreter
 //@   ensures [override-key] {C09} err == nil ==> has(st.SetAccountsMeta, as(args[0], AccountAddress)) && has(st.SetAccountsMeta[as(args[0], AccountAddress)], as(args[1], String))
 //@   ensures [other-accounts] {C09} forallstr(a, k, (err != nil || a != as(args[0], AccountAddress) || k != as(args[1], String)) && old(has(st.SetAccountsMeta, a)) && old(has(st.SetAccountsMeta[a], k)) ==> has(st.SetAccountsMeta, a) && has(st.SetAccountsMeta[a], k) && st.SetAccountsMeta[a][k] == old(st.SetAccountsMeta[a][k]))
 //@   ensures [state-ok] metaOk(st)
-//@   modifies entries(st.SetAccountsMeta), allentries("map[string]string")
+//@   ensures [meta-grew] {C11} metaGrew(st)
+//@   modifies entries(st.SetAccountsMeta), innermaps(st.SetAccountsMeta)
 
 //@ func (*programState).evaluateExpressions
 //@   requires [wf] wf(literals)
@@ -448,7 +485,10 @@ package interpreter
 //@   ensures [error-no-postings] {C03,C12} err != nil ==> len(result) == 0
 //@   ensures [state-ok] varsOk(st) && cacheOk(st) && metaOk(st)
 //@   ensures [cache-grew] {C10,C11} cacheGrew(st)
-//@   modifies st.Senders, st.Receivers, st.CurrentAsset, cellsof(st), entries(st.CachedBalances), innermapsof(st), allelems(Sender), allelems(Receiver), entries(st.TxMeta), entries(st.SetAccountsMeta), allentries("map[string]string")
+//@   ensures [cache-owned] {C11} old(cacheOwned(st)) ==> cacheOwned(st)
+//@   ensures [meta-grew] {C11} metaGrew(st) && st.TxMeta == old(st.TxMeta) && st.SetAccountsMeta == old(st.SetAccountsMeta) && st.ParsedVars == old(st.ParsedVars)
+//@   ensures [amounts-apart] {C11} err == nil ==> forall(k, 0, len(result), notCell(st, result[k].Amount) && allocated(ref(result[k].Amount)))
+//@   modifies st.Senders, st.Receivers, st.CurrentAsset, cellsof(st), entries(st.CachedBalances), innermapsof(st), entries(st.TxMeta), entries(st.SetAccountsMeta), innermaps(st.SetAccountsMeta)
 
 // ---------------------------------------------------------------- balances requested up front
 
@@ -472,17 +512,19 @@ package interpreter
 //@   ensures [all-needed-requested] {C10} err == nil ==> leavesPending(st, source, st.CurrentAsset)
 //@   ensures [keeps] {C10} forallstr(a, c, old(pending(st, a, c)) ==> pending(st, a, c))
 //@   ensures [never-world] {C10} forallstr(c, !old(pending(st, "world", c)) ==> !pending(st, "world", c))
+//@   ensures [no-world-key] {C10} !old(has(st.CurrentBalanceQuery, "world")) ==> !has(st.CurrentBalanceQuery, "world")
+//@   ensures [query-map] st.CurrentBalanceQuery == old(st.CurrentBalanceQuery)
 //@   ensures [state-ok] varsOk(st) && queryOk(st)
 //@   modifies entries(st.CurrentBalanceQuery)
 //@   loop 1
 //@     invariant [visited] {C10} forall(j, 0, iter, leavesPending(st, as(source, *parser.SourceInorder).Sources[j], st.CurrentAsset))
 //@     invariant [keeps] forallstr(a, c, old(pending(st, a, c)) ==> pending(st, a, c))
-//@     invariant [never-world] forallstr(c, !old(pending(st, "world", c)) ==> !pending(st, "world", c))
+//@     invariant [never-world] forallstr(c, !old(pending(st, "world", c)) ==> !pending(st, "world", c)) && (!old(has(st.CurrentBalanceQuery, "world")) ==> !has(st.CurrentBalanceQuery, "world")) && st.CurrentBalanceQuery == old(st.CurrentBalanceQuery)
 //@     invariant [state] varsOk(st) && queryOk(st)
 //@   loop 2
 //@     invariant [visited] {C10} forall(j, 0, iter, leavesPending(st, as(source, *parser.SourceAllotment).Items[j].From, st.CurrentAsset))
 //@     invariant [keeps] forallstr(a, c, old(pending(st, a, c)) ==> pending(st, a, c))
-//@     invariant [never-world] forallstr(c, !old(pending(st, "world", c)) ==> !pending(st, "world", c))
+//@     invariant [never-world] forallstr(c, !old(pending(st, "world", c)) ==> !pending(st, "world", c)) && (!old(has(st.CurrentBalanceQuery, "world")) ==> !has(st.CurrentBalanceQuery, "world")) && st.CurrentBalanceQuery == old(st.CurrentBalanceQuery)
 //@     invariant [state] varsOk(st) && queryOk(st)
 
 //@ spec assetOfSent(st, sv) = ite(typeis(sv, *parser.SentValueAll), as(evalOf(st, as(sv, *parser.SentValueAll).Asset), Asset), as(evalOf(st, as(sv, *parser.SentValueLiteral).Monetary), Monetary).Asset)
@@ -495,6 +537,8 @@ package interpreter
 //@   ensures [requested] {C08,C10} err == nil ==> stmtPending(st, statement)
 //@   ensures [keeps] {C10} forallstr(a, c, old(pending(st, a, c)) ==> pending(st, a, c))
 //@   ensures [never-world] {C10} forallstr(c, !old(pending(st, "world", c)) ==> !pending(st, "world", c))
+//@   ensures [no-world-key] {C10} !old(has(st.CurrentBalanceQuery, "world")) ==> !has(st.CurrentBalanceQuery, "world")
+//@   ensures [query-map] st.CurrentBalanceQuery == old(st.CurrentBalanceQuery)
 //@   ensures [state-ok] varsOk(st) && queryOk(st)
 //@   modifies entries(st.CurrentBalanceQuery), st.CurrentAsset
 
@@ -640,9 +684,30 @@ package interpreter
 //@   requires [state] varsOk(s) && storeOk(s) && s.ParsedVars != s.TxMeta
 //@   ensures [vars-ok] {C12,C17} err == nil ==> varsOk(s)
 //@   ensures [nothing-forgotten] {C10,C11} cacheGrew(s) && heapsame(bigint)
+//@   ensures [query-map] s.CurrentBalanceQuery == old(s.CurrentBalanceQuery) || fresh(ref(s.CurrentBalanceQuery))
 //@   ensures [state-ok] queryOk(s) && cacheOk(s) && cacheOwned(s) && s.Store != nil && !has(s.CurrentBalanceQuery, "world")
 //@   modifies entries(s.ParsedVars), s.CachedAccountsMeta, s.CurrentBalanceQuery, entries(s.CurrentBalanceQuery), entries(s.CachedBalances), innermapsof(s)
 //@   loop 1
 //@     invariant [state] varsOk(s) && queryOk(s) && cacheOk(s) && cacheOwned(s) && s.Store != nil && !has(s.CurrentBalanceQuery, "world") && s.ParsedVars != s.TxMeta
 //@     invariant [nothing-forgotten] cacheGrew(s) && innerGrew(s)
 //@     invariant [query-map] s.CurrentBalanceQuery == old(s.CurrentBalanceQuery) || fresh(ref(s.CurrentBalanceQuery))
+
+// ---------------------------------------------------------------- the whole program
+
+//@ func RunProgram
+//@   requires [wf] wf(program)
+//@   requires [store] store != nil
+//@   ensures [atomic] {C03,C12} (result == nil) != (err == nil)
+//@   ensures [postings-positive] {C02} err == nil ==> forall(k, 0, len(result.Postings), result.Postings[k].Amount != nil && val(result.Postings[k].Amount) > 0)
+//@   ensures [dest-not-kept] {C02,C05} err == nil ==> forall(k, 0, len(result.Postings), result.Postings[k].Destination != KEPT_ADDR)
+//@   ensures [inputs-untouched] {C11} heapsame(bigint)
+//@   modifies nothing
+//@   loop 1
+//@     invariant [requested] {C10} forall(k, 0, iter, stmtPending(addr(st), program.Statements[k]))
+//@     invariant [state] varsOk(addr(st)) && queryOk(addr(st)) && cacheOk(addr(st)) && cacheOwned(addr(st)) && metaOk(addr(st)) && st.Store != nil && !has(st.CurrentBalanceQuery, "world")
+//@     invariant [owned] {C11} fresh(ref(st.ParsedVars)) && fresh(ref(st.TxMeta)) && fresh(ref(st.SetAccountsMeta)) && fresh(ref(st.CurrentBalanceQuery)) && fresh(ref(addr(st))) && forallstr(a, has(st.SetAccountsMeta, a) ==> fresh(ref(st.SetAccountsMeta[a])))
+//@   loop 2
+//@     invariant [postings-ok] {C02} forall(k, 0, len(postings), postings[k].Amount != nil && val(postings[k].Amount) > 0 && postings[k].Destination != KEPT_ADDR)
+//@     invariant [postings-apart] {C11} forall(k, 0, len(postings), notCell(addr(st), postings[k].Amount) && allocated(ref(postings[k].Amount)))
+//@     invariant [state] varsOk(addr(st)) && cacheOk(addr(st)) && cacheOwned(addr(st)) && metaOk(addr(st))
+//@     invariant [owned] {C11} fresh(ref(st.ParsedVars)) && fresh(ref(st.TxMeta)) && fresh(ref(st.SetAccountsMeta)) && fresh(ref(addr(st))) && forallstr(a, has(st.SetAccountsMeta, a) ==> fresh(ref(st.SetAccountsMeta[a])))
